@@ -8,7 +8,7 @@
 static void on_send(void *c, const uint8_t *f, size_t n) { (void)c; (void)f; (void)n; }
 static void on_sleep(uint32_t ms) { (void)ms; }
 
-struct inputs { uint8_t fail_malloc[V_MAXFAIL]; uint8_t which; uint64_t now_s, now_ms; };
+struct inputs { uint8_t fail_malloc[V_MAXFAIL]; uint8_t which; uint64_t now_s, now_ms; uint8_t ms, es; session_table tab; uint64_t ih, ib; uint8_t op; };
 #ifdef VERIF_CBMC
 struct inputs nondet_inputs(void);
 #endif
@@ -66,6 +66,43 @@ void h_ctors(void) {
         session_table_destroy(0);
     }
     V_WITNESS("h_ctors end");
+}
+
+/* degraded start-up: whatever the constructors hand out after allocation faults (in particular automata whose
+ * extra state is missing) must be safe to drive: the periodic tick and the band / mapping helpers never dereference
+ * the missing part. */
+static unsigned g_deg_hello;
+static void deg_send_hello(void *ni) { (void)ni; g_deg_hello++; }
+void h_degraded(void) {
+    load_inputs();
+    g_faults_on = 1;
+#define FS(i) g_fail_malloc[i] = in.fail_malloc[i] & 1
+    FS(0); FS(1); FS(2); FS(3); FS(4); FS(5); FS(6); FS(7);
+#undef FS
+    g_plat.now_s = 0; g_plat.now_ms = 0;
+    automata *m = init_automata_mapping();
+    automata *e = init_automata_enumeration();
+    session_table *t = session_table_create();
+    g_faults_on = 0;                        /* the fault has cleared; the responder keeps running with what it got */
+    V_ASSUME(in.ms <= 2 && in.es <= 2);
+    if (m) m->current_state = in.ms;
+    if (e) { e->current_state = in.es; if (e->extra) { ((band_state *)e->extra)->hello_timeout_ts = in.ih; ((band_state *)e->extra)->block_timeout_ts = in.ib; } }
+    if (t) *t = in.tab;
+    V_ASSUME(in.now_s < (1ull << 62) && in.now_ms < (1ull << 62));
+    for (int i = 0; i < SESSION_TABLE_MAX_ENTRIES; i++) V_ASSUME(in.tab.entries[i].last_activity_ts < (1ull << 62));
+    g_plat.now_s = in.now_s; g_plat.now_ms = in.now_ms;
+    uint64_t last_tx = 0; int token;
+    lltd_automata_tick_port port; port.network_interface = &token; port.last_hello_tx_ms = &last_tx; port.send_hello = deg_send_hello;
+    automata_tick(m, e, t, &port);
+    /* the helpers the daemons call on received frames, with whatever extra state exists */
+    band_state *b = e ? (band_state *)e->extra : 0;
+    mapping_state *ms = m ? (mapping_state *)m->extra : 0;
+    band_on_hello_received(b); band_init_stats(b); band_update_stats(b); (void)band_choose_hello_time(b); band_do_hello(b);
+    mapping_on_charge(ms); mapping_reset_charge(ms); (void)mapping_check_charge_timeout(ms); (void)mapping_check_inactive_timeout(ms); mapping_reset_inactive_timeout(ms);
+    (void)session_table_is_empty(t); (void)session_table_all_complete(t); session_table_clear(t); session_table_update_complete_status(t);
+    automata_tick(m, e, t, &port);
+    V_ASSERT(g_deg_hello <= 2, "C18: at most one periodic Hello per tick also in degraded operation");
+    V_WITNESS("h_degraded end");
 }
 
 #ifndef VERIF_CBMC
